@@ -10,6 +10,10 @@ from adcgen.tensor_names import tensor_names as tn
 
 from .. import adapter, build, events, oracle
 from ..runner import guarded
+from functools import partial
+
+# derivations are long single calls: their own time limit
+guarded = partial(guarded, call_timeout=900)      # DERIVATION
 from . import c02
 
 # alternative index tuples per default tuple: permuted, shifted letters (the
